@@ -12,7 +12,7 @@
    atomic leaves.
 */
 
-:- module(vt, [run/2, rund/2, dump/1, dumpnl/1, w/1, w/2]).
+:- module(vt, [run/2, rund/2, runr/2, dump/1, dumpnl/1, w/1, w/2]).
 
 :- use_module(library(charsio)).
 :- use_module(library(iso_ext)).
@@ -20,6 +20,11 @@
 
 run(Chars, Limit) :-
     run_(Chars, Limit, false).
+
+% like run/2 but only the binding of the variable named R is dumped (other
+% bindings may be huge or cyclic)
+runr(Chars, Limit) :-
+    run_(Chars, Limit, only_r).
 
 % like run/2 but reports determinism of each solution (a D line)
 rund(Chars, Limit) :-
@@ -42,13 +47,18 @@ run_loop(Goal, VNs, Limit, Det) :-
         bb_get('$vt_n', N0),
         N is N0 + 1,
         bb_put('$vt_n', N),
-        write('S '), dump(VNs), nl,
+        (   Det == only_r -> only_r(VNs, VNs1) ; VNs1 = VNs ),
+        write('S '), dump(VNs1), nl,
         (   IsDet == true -> write('D'), nl ; true ),
         N >= Limit,
         !,
         write('E more'), nl
     ;   write('E exhausted'), nl
     ).
+
+only_r([], []).
+only_r([N=V|VNs], Out) :-
+    (   N == 'R' -> Out = [N=V] ; only_r(VNs, Out) ).
 
 dumpnl(T) :- dump(T), nl.
 
